@@ -57,7 +57,31 @@ func VerifC20_split_verb() {
 	}
 	want := map[string]string{}
 	var passed int
-	switch verifChoice("mode", 4) {
+	mode := verifChoice("mode", 5)
+	if mode == 4 {
+		// two group-by fields whose values contain commas: ("x,y","z") and ("x","y,z") are different groups
+		ctx := types.NewContext()
+		idc, odc := make(chan bool, 1), make(chan bool, 64)
+		out := []*types.RecordAndContext{}
+		tr := verifVerb("split", "-g", "g,h")
+		pairs := [][2]string{{"x,y", "z"}, {"x", "y,z"}}
+		for i := 0; i < 3; i++ {
+			p := pairs[verifChoice("pair", 2)]
+			rec := mlrval.NewMlrmapAsRecord()
+			rec.PutReference("g", mlrval.FromString(p[0]))
+			rec.PutReference("h", mlrval.FromString(p[1]))
+			rec.PutReference("x", mlrval.FromInt(int64(i)))
+			verifAssert(tr.Transform(types.NewRecordAndContext(rec, ctx), &out, idc, odc) == nil, "C20/split/transform-ok")
+			name := "split_x%2Cy_z.dkvp"
+			if p[0] == "x" {
+				name = "split_x_y%2Cz.dkvp"
+			}
+			want[name] += "g=" + p[0] + ",h=" + p[1] + ",x=" + string(rune('0'+i)) + "\n"
+		}
+		tr.Transform(types.NewEndOfStreamMarker(ctx), &out, idc, odc)
+		verifYield()
+	}
+	switch mode {
 	case 0: // -g: one file per distinct value, URL-escaped
 		passed = c20Feed(verifVerb("split", "-g", "g"), gs)
 		for i, g := range gs {
@@ -108,13 +132,43 @@ func VerifC20_dsl_redirects() {
 		verifDSL(`emit > "e.out", mapdiff($*, {"g": 0})`),
 		verifDSL(`print > $g.".out", $x; print > $g.".out", "line"`),
 		verifDSL(`if ($g == "a") { tee > "first.out", $* } else { tee > "second.out", $* } tee > "all.out", $*`),
+		verifDSL(`tee >> "old.out", $*`),
+		verifDSL(`print > "old.out", $x`),
+		verifDSL(`dump > "old.out", {"x": $x}`),
+		verifDSL(`dump >> "old.out", {"x": $x}`),
+		verifDSL(`emit >> "old.out", mapdiff($*, {"g": 0})`),
 	}
 	which := verifChoice("statement", len(stmts))
 	if c20FixedStatement >= 0 {
 		which = c20FixedStatement
 	}
+	c04Files["old.out"] = []byte("old\n") // a target that exists beforehand with content
 	passed := c20Feed(verifPut(stmts[which]), gs)
 	verifAssert(passed == len(gs), "C20/redirect/main-stream-continues")
+	if which >= 5 {
+		got := string(c04Files["old.out"])
+		appends := which == 5 || which == 8 || which == 9
+		if appends {
+			verifAssert(len(got) > 4 && got[:4] == "old\n", "C20/redirect/>>-keeps-what-the-target-held")
+		} else {
+			verifAssert(len(got) > 0 && (len(got) < 4 || got[:4] != "old\n"), "C20/redirect/>-replaces-what-the-target-held")
+		}
+		switch which {
+		case 5:
+			w := "old\n"
+			for i, g := range gs {
+				w += "g=" + g + ",x=" + string(rune('0'+i)) + "\n"
+			}
+			verifAssert(got == w, "C20/redirect/append-target-holds-old-then-routed-records")
+		case 6:
+			verifAssert(got == "0\n1\n2\n3\n", "C20/redirect/overwrite-target-holds-the-routed-lines")
+		case 9:
+			verifAssert(got == "old\nx=0\nx=1\nx=2\nx=3\n", "C20/redirect/append-target-holds-old-then-routed-records")
+		}
+		verifReach("C20/redirect/end")
+		return
+	}
+	delete(c04Files, "old.out")
 	want := map[string]string{}
 	for i, g := range gs {
 		rec := "g=" + g + ",x=" + string(rune('0'+i)) + "\n"
